@@ -384,3 +384,54 @@ ALPHABETS = {
     'stdnum.grid': A36 + '-:', 'stdnum.cusip': A36 + '*@#', 'stdnum.gb.sedol': A36, 'stdnum.figi': A36, 'stdnum.imo': D + 'IMO ',
     'stdnum.casrn': D + '-', 'stdnum.bic': A36, 'stdnum.isrc': A36 + '-', 'stdnum.bitcoin': _B58 + '0l',
 }
+
+
+# ------------------------------------------------------------------ reference-constructed inputs (C07)
+
+def bech32_encode(ver, prog_bytes, extra_zero_groups=0, pad_bits_nonzero=False):
+    """BIP-173 encoder for hrp 'bc' (used to build inputs with a correct checksum, valid or not by the rules)."""
+    acc = bits = 0
+    data = []
+    for b in prog_bytes:
+        acc = (acc << 8) | b
+        bits += 8
+        while bits >= 5:
+            bits -= 5
+            data.append((acc >> bits) & 31)
+    if bits:
+        v = (acc << (5 - bits)) & 31
+        if pad_bits_nonzero:
+            v |= 1
+        data.append(v)
+    data += [0] * extra_zero_groups
+    vals = [ver] + data
+    pm = _polymod([3, 3, 0, 2, 3] + vals + [0] * 6) ^ 1
+    chk = [(pm >> 5 * (5 - i)) & 31 for i in range(6)]
+    return 'bc1' + ''.join(_B32[v] for v in vals + chk)
+
+
+def base58check_encode(version, payload):
+    raw = bytes([version]) + payload
+    raw += hashlib.sha256(hashlib.sha256(raw).digest()).digest()[:4]
+    v = int.from_bytes(raw, 'big')
+    out = ''
+    while v:
+        v, r = divmod(v, 58)
+        out = _B58[r] + out
+    return '1' * (len(raw) - len(raw.lstrip(b'\x00'))) + out
+
+
+def constructed_inputs(name):
+    out = []
+    if name == 'stdnum.bitcoin':
+        for ver in (0, 1, 2, 15, 16, 17, 31):
+            for ln in (1, 2, 19, 20, 21, 31, 32, 33, 40, 41):
+                prog = bytes((7 * i + ln) % 256 for i in range(ln))
+                for ez in (0, 1, 2):
+                    for pn in (False, True):
+                        out.append(bech32_encode(ver, prog, ez, pn))
+        for version in (0, 5, 111, 196, 128):
+            for ln in (19, 20, 21):
+                out.append(base58check_encode(version, bytes((3 * i + version) % 256 for i in range(ln))))
+        out += [x.upper() for x in out[:40]] + [x[:6].upper() + x[6:] for x in out[:40]]
+    return out
